@@ -14,10 +14,14 @@ proximity graph with degree bound 2*M keeps connected) get none; nor do int8 ind
 quantiser (trained on the first vector only) clips most vectors onto a handful of identical codes - the same clique problem.
 Anchor checkpoints (class "anchor:<name>#<i>", one fixed configuration, >= 100 seeds): homogeneous, so
 floor = min(mean - 10 sd, min - 3 sd) with sd >= 0.002 (recall, 2000 neighbour slots) / 0.01 (self, 100 queries).
+Exception: HEAVY_ANCHORS (six separated clusters: the distribution is a mixture "all clusters reachable" / "k clusters
+not routed to", worst value of 400 seeds 10-13 sd below the mean, split-half validation of the 10-sd rule fails) use the
+rule of the generated classes, min(mean - 10 sd, min - MARGIN) with sd >= SDMIN.
 """
 import glob, json, math, sys, collections
 
 import os
+HEAVY_ANCHORS = ('anchor:clusters-refine#',)
 SDMIN, MARGIN = 0.03, float(os.environ.get('C07_MARGIN', '0.40'))
 
 def load(pats):
@@ -55,6 +59,9 @@ def floors(recs):
             sd = max(res, math.sqrt(sum((x - m) ** 2 for x in v) / (n - 1)))
             mn = min(v)
             return (m, sd, mn, min(m - 10 * sd, mn - 3 * sd) if anchor else min(m - 10 * sd, mn - MARGIN))
+        heavy = k.startswith(HEAVY_ANCHORS)
+        if heavy:
+            anchor = False  # st() below: heavy-tail rule
         if anchor:
             out[k] = (len(pts), len(cases[k]), st([p['recall_ef0'] for p in pts], 0.002),
                       st([p['recall_ef100'] for p in pts], 0.002), st(selfs, 0.01))
